@@ -52,7 +52,6 @@ type scenario struct {
 	start    time.Time
 	fires    []int64 // us, timeout deliveries
 	reported bool    // the error-state report of the first delivery was seen
-	closed   int
 	runCall  int64
 	runRet   int64
 	end      int64
@@ -67,23 +66,29 @@ type provider struct{ s *scenario }
 func (p *provider) IsRemoteServiceForSKIPaired(string) bool { return false }
 func (p *provider) IsAutoAcceptEnabled() bool               { return false }
 func (p *provider) HandleConnectionClosed(api.ShipConnectionInterface, bool) {
-	p.s.mu.Lock()
-	p.s.closed++
-	p.s.mu.Unlock()
+	// nothing but a delivered timeout closes these connections
+	p.s.firstDelivery()
 }
 func (p *provider) ReportServiceShipID(string, string) {}
 func (p *provider) AllowWaitingForTrust(string) bool   { return false }
 func (p *provider) HandleShipHandshakeStateUpdate(ski string, st model.ShipState) {
-	if st.State != model.SmeStateError || st.Error == nil || !strings.Contains(st.Error.Error(), "handshake timeout") {
-		return
+	// nothing but a delivered timeout puts these connections into the error state
+	if st.State == model.SmeStateError {
+		p.s.firstDelivery()
 	}
-	t := p.s.us()
-	p.s.mu.Lock()
-	if !p.s.reported { // endHandshakeWithError reports the same delivery more than once
-		p.s.reported = true
-		p.s.fires = append(p.s.fires, t)
+}
+
+// firstDelivery records the first timeout delivered to the connection: in
+// CmiStateServerWait it ends the handshake, which is reported as the error state (more
+// than once) and as a closed connection; whichever report comes first counts, once.
+func (s *scenario) firstDelivery() {
+	t := s.us()
+	s.mu.Lock()
+	if !s.reported {
+		s.reported = true
+		s.fires = append(s.fires, t)
 	}
-	p.s.mu.Unlock()
+	s.mu.Unlock()
 }
 func (p *provider) SetupRemoteDevice(string, api.ShipConnectionDataWriterInterface) api.ShipConnectionDataReaderInterface {
 	return nil
